@@ -16,7 +16,7 @@
      statement is kept in the comment above them. *)
 From Coq Require Import List ZArith Bool Arith Lia.
 From SC Require Import Base.Res Base.PyList Inst.Heap Inst.ClassTable Inst.Model Inst.Canon
-  Inst.Abs Inst.SpecHelpers Inst.RefineProofs Inst.CopyProofs Inst.CopyStore Inst.RefineMore.
+  Inst.Abs Inst.SpecHelpers Inst.RefineProofs Inst.CopyProofs Inst.CopyStore Inst.RefineMore Inst.RefineMore2.
 Import ListNotations.
 Open Scope nat_scope.
 
@@ -401,6 +401,64 @@ Example C05_example_update_top :
     = SErr TypeErr.
 Proof. vm_compute. repeat split. Qed.
 
+(* ---------------- copy-on-write forms (Inst/RefineMore2.v) ---------------- *)
+(* the Err outcomes of with_<a>(v) without _inplace on a flat receiver (frozen or not, no
+   __post_copy__ hook): the error class is the specification's and nothing at all was
+   written -- together with C05_refines_copy_partial and C05_copy_total_partial the call is
+   characterised completely under this guard *)
+Theorem C05_with_copy_err_partial : forall ct h0 l a c d k sp s v e s',
+  nth_error (heap s) l = Some (OInst c d) -> lookup_cls ct c = Some k -> lookup_attr k a = Some sp ->
+  flat_fields (heap s) d -> c_dnc k = false -> no_inval k -> fail_at s = None ->
+  ty_depth (a_ty sp) < FUEL -> ty_is_collection (a_ty sp) = false ->
+  assoc A_INITIALIZING d = None ->
+  match a_prepare sp with Some f => scalar_fn f = true | None => True end ->
+  vscalar v = true -> c_post_copy k = None ->
+  run_helper ct l (HWith a) (mkh [v] false true VMissing false None None [] None) s = (Err e, s') ->
+  spec_helper ct h0 (absv (heap s) (VRef l)) (SWith a)
+              (mkah [abs0 v] false true AMissing false None None [] None) = SErr e /\ heap s' = heap s.
+Proof.
+  intros ct h0 l a c d k sp s v e s' Hl Hc Ha Hflat Hdnc Hni Hfa Hty Hnc Hinit Hp Hv Hpc H.
+  exact (with_scalar_copy_err ct h0 l a c d k sp s Hl Hc Ha Hflat Hdnc Hni Hfa Hty Hnc Hinit Hp v e s' Hv Hpc H).
+Qed.
+
+(* transform_<a>(f) without _inplace on a flat receiver, frozen or not: fresh result whose
+   abstraction is the specification's, no old cell changed, copy not left initializing *)
+Theorem C05_transform_copy_refines_partial : forall ct h0 l a c d k sp s f r s',
+  nth_error (heap s) l = Some (OInst c d) -> lookup_cls ct c = Some k -> lookup_attr k a = Some sp ->
+  NoDup (map fst d) -> flat_fields (heap s) d ->
+  c_dnc k = false -> no_inval k -> fail_at s = None ->
+  ty_depth (a_ty sp) < FUEL -> ty_is_collection (a_ty sp) = false ->
+  assoc A_INITIALIZING d = None -> a <> A_INITIALIZING ->
+  match a_prepare sp with Some g => scalar_fn g = true | None => True end ->
+  scalar_fn f = true -> vscalar (cur_val a d k) = true ->
+  run_helper ct l (HTransform a) (mkh [] false true VMissing false None None [] (Some f)) s = (Ok r, s') ->
+  exists l' dfin,
+    r = VRef l' /\ length (heap s) <= l' /\
+    (forall i, i < length (heap s) -> nth_error (heap s') i = nth_error (heap s) i) /\
+    spec_helper ct h0 (absv (heap s) (VRef l)) (STransform a)
+                (mkah [] false true AMissing false None None [] (Some f)) = SOk (absv (heap s') (VRef l')) /\
+    nth_error (heap s') l' = Some (OInst c dfin) /\ assoc A_INITIALIZING dfin = None.
+Proof.
+  intros ct h0 l a c d k sp s f r s' Hl Hc Ha Hd Hflat Hdnc Hni Hfa Hty Hnc Hinit Ha0 Hp Hf Hcur H.
+  exact (transform_scalar_copy_refines ct h0 l a c d k sp s Hl Hc Ha Hd Hflat Hdnc Hni Hfa Hty Hnc Hinit Ha0 Hp f r s' Hf Hcur H).
+Qed.
+
+Theorem C05_transform_copy_err_partial : forall ct h0 l a c d k sp s f e s',
+  nth_error (heap s) l = Some (OInst c d) -> lookup_cls ct c = Some k -> lookup_attr k a = Some sp ->
+  NoDup (map fst d) -> flat_fields (heap s) d ->
+  c_dnc k = false -> no_inval k -> fail_at s = None ->
+  ty_depth (a_ty sp) < FUEL -> ty_is_collection (a_ty sp) = false ->
+  assoc A_INITIALIZING d = None ->
+  match a_prepare sp with Some g => scalar_fn g = true | None => True end ->
+  scalar_fn f = true -> vscalar (cur_val a d k) = true -> c_post_copy k = None ->
+  run_helper ct l (HTransform a) (mkh [] false true VMissing false None None [] (Some f)) s = (Err e, s') ->
+  spec_helper ct h0 (absv (heap s) (VRef l)) (STransform a)
+              (mkah [] false true AMissing false None None [] (Some f)) = SErr e /\ heap s' = heap s.
+Proof.
+  intros ct h0 l a c d k sp s f e s' Hl Hc Ha Hd Hflat Hdnc Hni Hfa Hty Hnc Hinit Hp Hf Hcur Hpc H.
+  exact (transform_scalar_copy_err ct h0 l a c d k sp s Hl Hc Ha Hd Hflat Hdnc Hni Hfa Hty Hnc Hinit Hp f e s' Hf Hcur Hpc H).
+Qed.
+
 Print Assumptions C05_noop_if_false.
 Print Assumptions C05_noop_with_unchanged.
 Print Assumptions C05_noop_update_unchanged.
@@ -424,3 +482,6 @@ Print Assumptions C05_reset_refines_partial.
 Print Assumptions C05_examples_more.
 Print Assumptions C05_update_top_refines_partial.
 Print Assumptions C05_example_update_top.
+Print Assumptions C05_with_copy_err_partial.
+Print Assumptions C05_transform_copy_refines_partial.
+Print Assumptions C05_transform_copy_err_partial.
